@@ -1,9 +1,13 @@
 (* REGENERATED from src/mxlpy/meta/codegen_model.py, sympy_tools.py and source_tools.py by harness/c07.py; do not edit.
    An unrecognised shape yields a *Unknown constructor / false, which breaks C07_facts_pinned. *)
-From Codegen Require Import Codegen CallArity.
+From Codegen Require Import Codegen CallArity NameScope RustLit.
 Definition gen_codegen_facts : facts :=
   mkFacts (mkLF AsgName DsList RetBracket false) (mkLF AsgName DsList RetBracket false)
           (mkLF AsgName DsList RetBracket true) (mkLF AsgLitK DsSplat RetBare true)
           OrdDep true true true true IaFrozen UtZero.
 (* the argument binding of src/mxlpy/meta/source_tools.py::fn_to_sympy *)
 Definition gen_bind_fact : bind_kind := BkStrict.
+(* which table src/mxlpy/meta/source_tools.py::_handle_name consults first *)
+Definition gen_name_fact : name_kind := NkLocalFirst.
+(* the text of the explicit zero of a variable no reaction acts on (_generate_model_code) *)
+Definition gen_zero_lit : zero_lit := ZlFloat.
